@@ -612,14 +612,14 @@ def real_execute(case, root):
 
 
 def real_compatible(case):
-    """Cases the stub can express: a spawn error affects every call, so it must be the
-    first failing call, which is then the only call observed."""
-    for k, (name, cs, ls) in enumerate(case):
+    """Cases the real stub can express: without a pkg-config executable *every* call fails to spawn,
+    so a spawn error is only expressible as the very first call (after which nothing else is called)."""
+    first = True
+    for name, cs, ls in case:
         for spec in (cs, ls):
-            if spec[0] == "oserror":
-                return k == 0 and spec is cs
-            if spec_fails(spec):
-                return True
+            if spec[0] == "oserror" and not first:
+                return False
+            first = False
     return True
 
 
@@ -698,6 +698,35 @@ def run(ctx):
             c = gen(i)
             ctx.sample({"family": fname, "index": i,
                         "packages": [{"name": p[0], "cflags": list(p[1]), "libs": list(p[2])} for p in c]})
+    # seam validation through a real executable
+    picks = []
+    want_real = 240 if ctx.quick else 1200
+    for fi, (fname, n, gen) in enumerate(sp.fam):
+        share = max(20, want_real * n // total) if fname != "F4-failures" else min(n, want_real // 3)
+        step = max(1, n // share)
+        picks.extend((fi, i) for i in range(0, n, step))
+    picks = [p for p in picks if real_compatible(sp.fam[p[0]][2](p[1]))]
+    build_stub()
+    ctx.log("replaying %d cases through a real stub pkg-config first" % len(picks))
+    nreal = nreal_err = 0
+    chunks = list(pool.chunks(picks, 8))
+    mism = []
+    for item, r in pool.pmap(work_real, chunks):
+        if isinstance(r, (pool.WorkerError, pool.Crash)):
+            raise InfraError("real-stub worker failed: %r" % (r,))
+        fi, i, same, o1, o2 = r
+        nreal += 1
+        if o2[0] == "raise":
+            nreal_err += 1
+        if not same:
+            mism.append((fi, i, o1, o2))
+    if mism:
+        fi, i, o1, o2 = sorted(mism)[0]
+        raise InfraError("the in-process stand-in and the real stub pkg-config disagree on %d case(s), e.g. %s[%d]: "
+                         "%r vs %r" % (len(mism), sp.fam[fi][0], i, o1, o2))
+    ctx.log("real stub replays done")
+    ctx.count("real_stub_replays", nreal)
+    ctx.count("real_stub_replays_raising", nreal_err)
     evaluated = nontrivial = 0
     hist = collections.Counter()
     bad_all = []
@@ -725,35 +754,6 @@ def run(ctx):
     # merge_flags
     install_fake()
     nmerge = run_merge(ctx)
-    # seam validation through a real executable
-    picks = []
-    want_real = 300 if ctx.quick else 1500
-    for fi, (fname, n, gen) in enumerate(sp.fam):
-        share = max(20, want_real * n // total) if fname != "F4-failures" else min(n, want_real // 3)
-        step = max(1, n // share)
-        picks.extend((fi, i) for i in range(0, n, step))
-    picks = [p for p in picks if real_compatible(sp.fam[p[0]][2](p[1]))]
-    build_stub()
-    ctx.log("merge_flags done; replaying %d cases through a real stub" % len(picks))
-    nreal = nreal_err = 0
-    chunks = list(pool.chunks(picks, 8))
-    mism = []
-    for item, r in pool.pmap(work_real, chunks):
-        if isinstance(r, (pool.WorkerError, pool.Crash)):
-            raise InfraError("real-stub worker failed: %r" % (r,))
-        fi, i, same, o1, o2 = r
-        nreal += 1
-        if o2[0] == "raise":
-            nreal_err += 1
-        if not same:
-            mism.append((fi, i, o1, o2))
-    if mism:
-        fi, i, o1, o2 = sorted(mism)[0]
-        raise InfraError("the in-process stand-in and the real stub pkg-config disagree on %d case(s), e.g. %s[%d]: "
-                         "%r vs %r" % (len(mism), sp.fam[fi][0], i, o1, o2))
-    ctx.log("real stub replays done")
-    ctx.count("real_stub_replays", nreal)
-    ctx.count("real_stub_replays_raising", nreal_err)
     cov = {
         "evaluations": evaluated + nmerge,
         "distinct_nontrivial": nontrivial,
